@@ -576,6 +576,7 @@ class Lattice():
         for ind in self._site_data:
             if self._site_data[ind] is not None:
                 net._site_data[ind] = self._site_data[ind].clone()
+        net._patch = {site: obj.clone() for site, obj in self._patch.items()}
         return net
 
     def copy(self) -> Lattice:
@@ -587,6 +588,7 @@ class Lattice():
         for ind in self._site_data:
             if self._site_data[ind] is not None:
                 net._site_data[ind] = self._site_data[ind].copy()
+        net._patch = {site: obj.copy() for site, obj in self._patch.items()}
         return net
 
     def shallow_copy(self) -> Lattice:
@@ -598,6 +600,7 @@ class Lattice():
         net = type(self)(geometry=self.geometry)
         for ind in self._site_data:
             net._site_data[ind] = self._site_data[ind]
+        net._patch = dict(self._patch)
         return net
 
     def detach(self) -> Lattice:
